@@ -19,7 +19,7 @@ import common
 # ------------------------------------------------------------------------------- plumbing
 
 
-class Hang(Exception):
+class Hang(BaseException):
     pass
 
 
